@@ -6,7 +6,19 @@
    re-iterations), nodes outside the subgraph are executed at most once, consumers are invoked with the reference's arguments
    (the first non-Recurrent result, or get_default after exhaustion) and never with a Recurrent marker, exhaustion without a
    default ends the run with RecurrentSubgraphDoesNotHaveResultError, no deadlock.
-   FALSE in general (known findings D9, D12). The fragment theorem over RecWN is not proved. *)
+   Kind G (ALL programs -- recurrent subgraphs anywhere, nested, inside candidates, with switches inside; any bodies, collaborators,
+   order oracles --, EVERY schedule incl. cancellation; Proofs/RecAll.v, Proofs/ArgsAll.v):
+     - C11_iterations_are_bounded: the remaining-iterations counter of every loop in flight is at most max_iterations of its
+       destination, and while an iteration is running it is strictly below it (each iteration takes one off a counter that starts
+       at max_iterations: at most max_iterations iterations per entry into the loop);
+     - C11_loops_are_driven_by_stored_markers: a loop exists, and goes round again, only on a Recurrent marker that the
+       destination node stored as its result in this run;
+     - C11_additional_data_is_a_marker_payload / C11_start_node_receives_the_marker_payload: the additional_data kept for a start
+       node, and the additional_data argument of every body invocation, is the payload of a Recurrent marker stored by the
+       destination of a recurrent subgraph starting at that node.
+   What these do NOT say: that exactly the nodes on start->destination paths are re-executed and that consumers outside see only
+   the final result (false in general: known findings D9, D12; kind E / correspondence elsewhere).
+   FALSE in general: the full statement (known findings D9, D12). *)
 From MLPE Require Import Engine.Run Spec.Dataflow Proofs.ExecLemmas Explore.StateEq Explore.Erase Explore.Explorer Explore.Safe
      Catalogue.Programs Catalogue.Certified Proofs.CertLemmas.
 
@@ -55,3 +67,55 @@ Proof.
     + destruct e as [c i a|ee k|k|k|]; cbn in H; try discriminate. destruct ee; try discriminate; eauto.
 Qed.
 Print Assumptions C11_exhaustion_fails_the_run.
+
+(* ---- kind G: all programs, all schedules ------------------------------------------------------------------------------------ *)
+From MLPE Require Import Proofs.Micro Proofs.PlainCore Proofs.SwitchAll Proofs.RecAll Proofs.ArgsAll Proofs.AssocLemmas.
+
+(* FRecLoop _ n _ _ r _: the loop of destination n with r iterations left; FRecAfterIter _ n _ _ r: an iteration of it running *)
+Theorem C11_iterations_are_bounded :
+  forall P st x f, reachable P st -> In x (st_tasks st) -> In f (estack (t_state x)) ->
+    match f with
+    | FRecLoop _ n _ _ r _ => r <= maxit P n
+    | FRecAfterIter _ n _ _ r => S r <= maxit P n
+    | _ => True
+    end.
+Proof. exact recurrent_loops_are_bounded_all_programs. Qed.
+Print Assumptions C11_iterations_are_bounded.
+
+Theorem C11_loops_are_driven_by_stored_markers :
+  forall P st x f, reachable P st -> In x (st_tasks st) -> In f (estack (t_state x)) ->
+    match f with
+    | FRecStart _ n res | FRecLoop _ n _ _ _ res => is_rec res = true /\ In (OSetResult n res) (st_trace st)
+    | _ => True
+    end.
+Proof. exact recurrent_loops_are_driven_by_stored_markers_all_programs. Qed.
+Print Assumptions C11_loops_are_driven_by_stored_markers.
+
+Theorem C11_additional_data_is_a_marker_payload :
+  forall P st, reachable P st ->
+    forall s v, alookup key_eqb s (st_adddata st) = Some v ->
+      exists n res, na_start (nattr_of (b_graph (build (p_decls P) (p_inp P) (p_out P))) n) = Some s /\
+                    is_rec res = true /\ In (OSetResult n res) (st_trace st) /\ v = rec_data res.
+Proof. exact additional_data_is_the_payload_of_a_stored_marker_all_programs. Qed.
+Print Assumptions C11_additional_data_is_a_marker_payload.
+
+(* [ad_ok P b n ad]: the additional_data entry of the arguments, if there is one, is the payload of a Recurrent marker that the
+   destination of a recurrent subgraph starting at n stored in the history b before the invocation *)
+Theorem C11_start_node_receives_the_marker_payload :
+  forall P st, reachable P st ->
+    forall a b i k kw, st_trace st = a ++ OStart i k kw :: b ->
+      exists n val ad, real_index n = i /\ gen_kwargs P n val ad = Some kw /\ (forall p v, val p = Some v -> prov P b p v) /\ ad_ok P b n ad.
+Proof. exact arguments_come_from_the_declared_inputs_all_programs. Qed.
+Print Assumptions C11_start_node_receives_the_marker_payload.
+
+(* the premises occur: a complete run of the catalogue loop (max_iterations 3, the destination asks twice) stores two markers for
+   the destination 2, keeps the payload of the second as additional_data of the start node 1, and invokes node 1 three times *)
+Example C11_events_occur :
+  let P := cat_rec_simple in
+  let st := run_sched P [AQuiesce; AGate (GBody 0 0); AQuiesce; AGate (GBody 1 0); AQuiesce; AGate (GBody 2 0); AQuiesce; AGate (GBody 1 1); AQuiesce;
+                         AGate (GBody 2 1); AQuiesce; AGate (GBody 1 2); AQuiesce; AGate (GBody 2 2); AQuiesce; AGate (GBody 3 0); AQuiesce] in
+  st_adddata st = [(KN 1, VInt 2)] /\ maxit P (KN 2) = 3 /\
+  na_start (nattr_of (b_graph (build (p_decls P) (p_inp P) (p_out P))) (KN 2)) = Some (KN 1) /\
+  In (OSetResult (KN 2) (VRec (VInt 2))) (st_trace st) /\ In (OSetResult (KN 2) (VRec (VInt 1))) (st_trace st) /\
+  ctr_get (CBody 1) st = 3.
+Proof. vm_compute. repeat split; auto 40. Qed.
